@@ -16,7 +16,7 @@ Lemma read_at_mid pre x post off n :
   off = N.of_nat (length pre) -> n = N.of_nat (length x) ->
   read_at (pre ++ x ++ post) off n = Some x.
 Proof.
-  intros -> ->. unfold read_at.
+  intros -> ->. unfold read_at. cbv zeta.
   rewrite !app_length.
   destruct (N.leb_spec (N.of_nat (length pre) + N.of_nat (length x))
                        (N.of_nat (length pre + (length x + length post)))) as [H|H]; [|lia].
